@@ -146,7 +146,8 @@ def add_query_argument(url, name, value=None, quote=True):
     query = None
     fragment = None
 
-    s = url.rsplit("#", 1)
+    # NOTE: the fragment starts at the first "#"
+    s = url.split("#", 1)
 
     if len(s) > 1:
         url, fragment = s
